@@ -269,6 +269,9 @@ def r02_3(prog, out):
                 from anchors import FIELDS
                 if any(c[0] == actor_ty and c[1] not in FIELDS["SubscriptionActor"] for c in e.cells):
                     continue        # bookkeeping next to the delivery state (a counter, a per-message attempt count pruned on ack)
+                tr_ty = A.ty("OutstandingMessageTracker")
+                if any(c[0] == tr_ty and c[1] not in FIELDS["OutstandingMessageTracker"] for c in e.cells):
+                    continue        # a field the tracker keeps about its own map (bounds of the live ids, a size): R02.8 judges how it is used
                 bad.append(e)
         key = "ack-handler:%s" % prog.short(tid)
         if bad:
@@ -486,8 +489,17 @@ def r02_5(prog, out):
             s = sl.of_resolved(bid, ids)      # the ids arrive as a field of a value built by the caller
         key = "ack-caller:%s" % prog.short(bid)
         from common import skipped_only_when_empty
+        from slicing import through_channels
+        via = None
+        if "crate::api::parser::parse_ack_id" not in s.calls:
+            via = through_channels(prog, sl, bid, s)      # the ids were parsed by a reader and queued for a worker task
+            if via is not None:
+                s = via
         sk = skipped_only_when_empty(prog, bi, bb, ids)
-        if sk is not None:
+        if sk is not None and via is not None:
+            out.undecided(key + ":applied", bi.loc(sk[0]), "acknowledgements are applied by a worker fed through a queue: " + sk[1] + " (whether that path is only taken "
+                          "when the subscription refuses further work is not decided)")
+        elif sk is not None:
             out.violation(key + ":applied", bi.loc(sk[0]), "acknowledgements: " + sk[1])
         if "crate::api::parser::parse_ack_id" in s.calls:
             out.holds(key, bi.loc(bb), "ids come from the ack-id parser")
@@ -649,6 +661,40 @@ def r02_7(prog, out):
         raise CheckBroken("expected the unary and the streaming user of the ack-id parser, found %d" % n)
 
 
+def bound_provenance(prog, bid, bi, site, messages, expirations):
+    """the switch at `site` compares the requested id with tracker fields; "from-map" when every value ever written to those
+    fields derives from the map's own keys (a key being inserted, `keys()`, `contains_key`, the field itself) and never from an
+    entry that is being taken out (a popped expiry, a removed delivery); "from-removed" / "unknown" otherwise"""
+    A = prog.anchors
+    tracker = A.ty("OutstandingMessageTracker")
+    sl = Slicer(prog)
+    t = bi.body.blocks[site].term
+    if t.k != "switch" or t.discr is None or t.discr.place is None:
+        return "unknown"
+    sd = sl.of(bid, t.discr)
+    from anchors import FIELDS
+    bounds = {f for f in sd.fields if f[0] == tracker and f[1] not in FIELDS["OutstandingMessageTracker"]}
+    if not bounds:
+        return "unknown"
+    # (the slicer follows `self` as a whole, so the provenance of the written value cannot be told apart precisely; what can be
+    # told is *who* writes the bound: a bound that the inserting operation widens follows what is in the map, a bound that only
+    # the removing operations move follows what left it)
+    writers = set()
+    for b in prog.facts.lib_bodies():
+        if b.impl_self != tracker:
+            continue
+        for e in prog.effects(b.id):
+            if e.kind == "write" and e.cells and e.cells[-1] in bounds:
+                writers.add(b.id)
+    inserters = {b.id for b in prog.facts.lib_bodies() if b.impl_self == tracker and any(
+        e.touches(messages) and e.kind in L.INSERT_KINDS and not e.chain for e in prog.effects(b.id))}
+    if not writers:
+        return "unknown"
+    if writers & inserters:
+        return "from-map"
+    return "from-removed"
+
+
 def _r02_8(prog, out):
     """R02.6 follows every id of a request from the API to the tracker.  Inside the tracker the same question remains: the loop
     over the requested ids has to put each of them to the ack-id map -- the only thing that may decide `not outstanding`.  A
@@ -704,6 +750,12 @@ def _r02_8(prog, out):
                     if bi.body.blocks[x].term.k == "switch":
                         site = x
                         break
+                verdict = bound_provenance(prog, b.id, bi, site, messages, expirations)
+                if verdict == "from-map":
+                    out.undecided(key, bi.loc(site), "ids outside a range the tracker keeps about the keys of its own map are passed over without a lookup; the range is only "
+                                  "ever written from what is in the map (an inserted key, a reading of the keys): that it always covers every live id is an invariant "
+                                  "of that bookkeeping, not decided here")
+                    continue
                 out.violation(key, bi.loc(site), "an id of the request can be passed over without being looked up in the ack-id map (a test in front of the lookup decides): "
                               "a delivery that is still outstanding is neither acknowledged nor modified although the call reports success",
                               ["bb%d (%s)" % (x, bi.loc(x)) for x in esc][:8])
